@@ -100,6 +100,7 @@ func TestC11(t *testing.T) {
 			finalHead := r.Head
 			g := n.Disk(0).G.Entries
 			finalImg := ChainStateImage(n, w.maxNumber())
+			bothSpentAndTrimmed := spentAndTrimmed(w, n)
 			n.Stop()
 			synctest.Wait()
 			if len(g) == 0 || finalHead == w.Gen {
@@ -190,7 +191,9 @@ func TestC11(t *testing.T) {
 								return fmt.Errorf("deliver #%d: %w", b.Number, err)
 							}
 						}
-						fireAppendQueues(rn, 2*len(line)+2)
+						// bound of the progress clause: a dominant block whose subordinate's pending ETXs did not survive the crash is retried
+						// c_pEtxRetryThreshold (10) times before the dominant chain asks the subordinate for them again
+						fireAppendQueues(rn, 3*len(line)+40)
 						for _, b := range line {
 							if !rn.Appended(b.Hash) {
 								return fmt.Errorf("block #%d %x (order %d) of the original chain cannot be appended after the restart", b.Number, b.Hash[:6], b.Order)
@@ -200,12 +203,25 @@ func TestC11(t *testing.T) {
 					})
 					w.outbox = nil
 					if err != nil {
-						fail("reappend-ok", "crash="+where, fmt.Sprintf("after crash at write %d/%d (head on restart #%d %x): %v", cp, len(g), head.NumberU64(2), hh[:6], err))
+						diag := ""
+						for _, b := range line {
+							for ctx := b.Order; ctx <= common.ZONE_CTX; ctx++ {
+								c := rn.Cores[ctx]
+								hasH, hasB := c.GetHeaderByHash(b.Hash) != nil, c.GetBlockByHash(b.Hash) != nil
+								ter := rawdb.ReadTermini(rn.DBs[ctx], b.Hash) != nil
+								if !hasH || !hasB || !ter {
+									diag += fmt.Sprintf("\n  #%d %x order %d at ctx %d: header=%v block=%v termini=%v", b.Number, b.Hash[:4], b.Order, ctx, hasH, hasB, ter)
+								}
+							}
+						}
+						fail("reappend-ok", "crash="+where, fmt.Sprintf("after crash at write %d/%d (head on restart #%d %x): %v%s", cp, len(g), head.NumberU64(2), hh[:6], err, diag))
 						return false
 					}
 					img := ChainStateImage(rn, w.maxNumber())
 					if d := DiffImages(finalImg, img); d != "[]" {
-						fail("recovered-equals-uncrashed", "crash="+where+" differs="+classifyDiff(finalImg, img), fmt.Sprintf("after crash at write %d/%d, restart and re-delivery of the chain, the chain state differs from the uncrashed node (left=uncrashed, right=recovered): %s", cp, len(g), d))
+						// the uncrashed node reorganised during the run, the recovered one only followed the final line: the known duplicate
+						// address-index entries after rolling back a block that spent and trimmed one output (C10 finding) are attributed
+						fail("recovered-equals-uncrashed", "crash="+where+" differs="+classifyDiff(finalImg, img)+dedupeIndexDuplicates(bothSpentAndTrimmed, finalImg, img), fmt.Sprintf("after crash at write %d/%d, restart and re-delivery of the chain, the chain state differs from the uncrashed node (left=uncrashed, right=recovered): %s", cp, len(g), d))
 						return false
 					}
 					simkit.Global.Inc("crash_images_recovered")
